@@ -70,7 +70,7 @@ func ruleConfigSelection(r *rep.Report, p *load.Program) {
 		for _, file := range pkg.Syntax {
 			has := false
 			for _, d := range file.Decls {
-				if fd, ok := d.(*ast.FuncDecl); ok && fd.Name.Name == "moveConditionalBytes" && fd.Recv == nil {
+				if fd, ok := d.(*ast.FuncDecl); ok && fd.Name.Name == ssau.Actual(p, "internal/ge25519", "moveConditionalBytes") && fd.Recv == nil {
 					has = true
 				}
 			}
